@@ -10,7 +10,14 @@ correspondence: real LinearForm / BilinearForm.__call__ and .is_symmetric on gen
                 simultaneous substitution
 oracle        : the property on the implementation (tools/impl/C10_impl.py): own arguments, exchange vs the form built
                 directly with exchanged roles, leaves / regions untouched, exact evaluation on explicit polynomials of
-                "result == original at the substituted arguments, simultaneously", symmetry flag vs exchange of values
+                "result == original at the substituted arguments, simultaneously", symmetry flag vs exchange of values;
+                the identity oracle walks the result OBJECTS (Python identity / class, name, .space): no declared
+                argument survives where another value was supplied, each value sits where the argument was, the rest
+                is unchanged
+identity      : a function is (class, name, space): the serialiser writes the space tag of every function leaf, the
+                model's dictionary keys carry it, the oracle's polynomials are drawn per (name, class, space); values
+                that carry the NAME of a declared argument / free field but live in another space (other space name,
+                other kind, other class, product-space components) are generated for every form
 """
 import copy
 import json
@@ -18,7 +25,10 @@ import json
 from vlib import coq_str, coq_list, canon_hash
 
 # ------------------------------------------------------------------ g-tree helpers
-F = lambda n: {"k": "fun", "n": n}
+def F(n, s=None):
+    return {"k": "fun", "n": n} if s is None else {"k": "fun", "n": n, "s": s}
+
+
 C = lambda n: {"k": "const", "n": n}
 X = lambda i: {"k": "coord", "i": i}
 N = lambda p, q=1: {"k": "num", "p": p, "q": q}
@@ -42,7 +52,24 @@ SC_FRESH, VE_FRESH = ["w", "z", "w1", "z1"], ["P", "Q", "P1", "Q1"]
 CONSTS = ["c", "k", "mu"]
 ALL_FUNS = [[n, False] for n in SC_TRIAL + SC_TEST + SC_FIELD + SC_FRESH] + \
            [[n, True] for n in VE_TRIAL + VE_TEST + VE_FIELD + VE_FRESH]
-ISVEC = dict((n, v) for n, v in ALL_FUNS)
+ISVEC = dict((n, v) for n, v in ALL_FUNS)          # class of a NAME in its home space
+# space id -> (vector?, space name, kind)   (mirror of tools/impl/C10_impl.py SPACES)
+SPACES = {"V": (False, "V", None), "W": (True, "W", None),
+          "V2": (False, "V2", None), "Vh": (False, "V", "h1"), "Vl": (False, "Q", "l2"),
+          "W2": (True, "W2", None), "Wc": (True, "W", "hcurl"), "Wd": (True, "Wd", "hdiv"),
+          "VX": (True, "V", None), "WS": (False, "W", None)}
+PLAIN_TWINS = {False: ["V", "V2"], True: ["W", "W2"]}              # kind undefined: every operator accepts them
+KIND_TWINS = {False: ["Vh", "Vl"], True: ["Wc", "Wd"]}            # the calculus refuses some operators on these
+CROSS_TWINS = {False: ["W", "W2", "VX"], True: ["V", "V2", "WS"]}   # the other class
+
+
+def home_of(case, name):
+    return case.get("home", {}).get(name, "W" if ISVEC[name] else "V")
+
+
+def ref_is_vec(case, t):
+    """class of a function reference of a g-tree"""
+    return SPACES[t["s"]][0] if "s" in t else ISVEC[t["n"]]
 
 
 class Gen:
@@ -218,6 +245,111 @@ def gen_form(rng, thorough):
             "seed": rng.randrange(1 << 30)}
 
 
+def walk_refs(t, fn, parent=None):
+    """fn(node, parent op) for every function / constant reference of a g-tree"""
+    if t["k"] in ("fun", "const"):
+        fn(t, parent)
+        return
+    tag = t["n"] if t["k"] == "op" else t["k"]
+    for x in t.get("a", []):
+        walk_refs(x, fn, tag)
+    for key in ("b", "of"):
+        if key in t:
+            walk_refs(t[key], fn, tag)
+
+
+def map_refs(t, fn):
+    """copy of a g-tree with fn applied to every function reference (fn returns the replacement)"""
+    if t["k"] == "fun":
+        return fn(t)
+    out = dict(t)
+    if "a" in t:
+        out["a"] = [map_refs(x, fn) for x in t["a"]]
+    for key in ("b", "of"):
+        if key in t:
+            out[key] = map_refs(t[key], fn)
+    return out
+
+
+def form_symbols(form):
+    """(free field references [(name, sid or None)], constant names, contexts of the plain references of every name)"""
+    own = set(form["trials"] + form["tests"])
+    fields, consts, ctx = set(), set(), {}
+
+    def see(t, parent):
+        if t["k"] == "const":
+            consts.add(t["n"])
+        elif "s" in t or t["n"] not in own:
+            fields.add((t["n"], t.get("s")))
+        if t["k"] == "fun" and "s" not in t:
+            ctx.setdefault(t["n"], set()).add(parent)
+    for it in form["integrals"]:
+        walk_refs(it["e"], see)
+    return sorted(fields, key=str), sorted(consts), ctx
+
+
+def add_same_names(rng, form):
+    """Other spaces and same-named symbols inside the form: home spaces other than V / W, arguments created as ONE element
+    of a product space, a free field that exists twice under one name (spaces V and V2), a coefficient that carries the
+    name of a declared argument, a constant that carries the name of a free field."""
+    own = form["trials"] + form["tests"]
+    form["home"] = {}
+    c = rng.random()
+    if c < 0.2:
+        form["home"] = {n: ("W2" if ISVEC[n] else "V2") for n in own}                    # the arguments live in V2 / W2
+    elif c < 0.3:
+        form["home"] = {n: ("W2" if v else "V2") for n, v in ALL_FUNS if n not in own}    # everything else does
+    form["product_decl"] = len(own) > 2 and rng.random() < 0.5
+    fields, consts, ctx = form_symbols(form)
+    notes = []
+    # (B) one free field under two identities
+    plain_fields = [n for n, s_ in fields if s_ is None]
+    if plain_fields and rng.random() < 0.22:
+        f = rng.choice(plain_fields)
+        twin = rng.choice([x for x in PLAIN_TWINS[ISVEC[f]] if x != home_of(form, f)])
+        count = [0]
+
+        def flip(t):
+            if t["n"] == f and "s" not in t:
+                count[0] += 1
+                if count[0] % 2 == pick:
+                    return F(f, twin)
+            return t
+        pick = rng.randrange(2)
+        for it in form["integrals"]:
+            it["e"] = map_refs(it["e"], flip)
+        notes.append("twin-field")
+    # (C) a coefficient that carries the name of a declared argument (same class other space, or the other class)
+    if rng.random() < 0.12:
+        n = rng.choice(own)
+        if not ISVEC[n] and rng.random() < 0.7:
+            sid = rng.choice([x for x in PLAIN_TWINS[False] if x != home_of(form, n)])
+        else:
+            sid = rng.choice(CROSS_TWINS[True]) if ISVEC[n] else rng.choice(["V2", "WS"])
+        if not SPACES[sid][0]:
+            it = rng.choice(form["integrals"])
+            e = it["e"]
+            if e["k"] == "add":
+                i = rng.randrange(len(e["a"]))
+                e["a"][i] = MUL(F(n, sid), e["a"][i])
+            else:
+                it["e"] = MUL(F(n, sid), e)
+            notes.append("field-named-like-argument")
+    # a constant that carries the name of a free field
+    if plain_fields and rng.random() < 0.1:
+        f = rng.choice(plain_fields)
+        it = rng.choice(form["integrals"])
+        e = it["e"]
+        if e["k"] == "add":
+            i = rng.randrange(len(e["a"]))
+            e["a"][i] = MUL(C(f), e["a"][i])
+        else:
+            it["e"] = MUL(C(f), e)
+        notes.append("constant-named-like-field")
+    form["same_names"] = notes
+    return form
+
+
 def tree_funs(t, acc=None):
     acc = set() if acc is None else acc
     if t["k"] == "fun":
@@ -246,7 +378,10 @@ def pack(rng, names, trees=None, force_seq=False):
     trees = trees if trees is not None else [F(n) for n in names]
     if len(trees) == 1 and not force_seq and rng.random() < 0.7:
         return {"val": trees[0]}
-    return {"seq": trees, "as": rng.choice(["tuple", "tuple", "list", "Tuple"])}
+    kinds = ["tuple", "tuple", "list", "Tuple"]
+    if len(trees) > 1 and all(t["k"] == "fun" for t in trees):
+        kinds.append("product")          # the values are created as ONE element of the product of their spaces
+    return {"seq": trees, "as": rng.choice(kinds)}
 
 
 def fresh_for(rng, names, used):
